@@ -125,6 +125,7 @@ pub proof fn lemma_padding_img(p: int)
 {
 }
 
+#[verifier::spinoff_prover]
 pub proof fn lemma_concat_blocks(blocks: Seq<Seq<u8>>, k: int, w: int)
     requires
         0 <= k <= blocks.len(),
@@ -140,6 +141,9 @@ pub proof fn lemma_concat_blocks(blocks: Seq<Seq<u8>>, k: int, w: int)
         let prev = concat_blocks(blocks, k - 1);
         let cur = concat_blocks(blocks, k);
         assert(k * w == (k - 1) * w + w) by (nonlinear_arith);
+        assert(cur == prev + blocks[k - 1]);
+        assert(blocks[k - 1].len() == w);
+        assert(cur.len() == prev.len() + w);
         assert forall|i: int| 0 <= i < k implies cur.subrange(i * w, i * w + w) == #[trigger] blocks[i] by {
             assert(i * w + w <= k * w) by (nonlinear_arith)
                 requires
@@ -1561,6 +1565,179 @@ pub fn vp_pad_transparent_tfb<'a, F: crate::FciParser<'a>>(a: &'a [u8], b: &'a [
     let fb = pb.parse_fci::<F>();
     assert(fa is Ok <==> fb is Ok);
     assert(fa is Ok ==> fa->Ok_0.fci_bytes() == fb->Ok_0.fci_bytes());
+}
+
+} // verus!
+
+verus! {
+
+// ---- C11 / C14: compound tiling ------------------------------------------------------------------------------------
+pub open spec fn cat_len(imgs: Seq<Seq<u8>>, k: int) -> int
+    decreases k,
+{
+    if k <= 0 {
+        0
+    } else {
+        cat_len(imgs, k - 1) + imgs[k - 1].len()
+    }
+}
+
+pub proof fn lemma_cat_len_mono(imgs: Seq<Seq<u8>>, i: int, k: int)
+    requires
+        0 <= i <= k,
+    ensures
+        0 <= cat_len(imgs, i) <= cat_len(imgs, k),
+    decreases k,
+{
+    if i < k {
+        lemma_cat_len_mono(imgs, i, k - 1);
+    } else if k > 0 {
+        lemma_cat_len_mono(imgs, i - 1, k - 1);
+    }
+}
+
+pub proof fn lemma_cat_at(imgs: Seq<Seq<u8>>, k: int, i: int)
+    requires
+        0 <= i < k <= imgs.len(),
+    ensures
+        concat_blocks(imgs, k).len() == cat_len(imgs, k),
+        0 <= cat_len(imgs, i) <= cat_len(imgs, i + 1) <= cat_len(imgs, k),
+        concat_blocks(imgs, k).subrange(cat_len(imgs, i), cat_len(imgs, i + 1)) == imgs[i],
+    decreases k,
+{
+    lemma_cat_len(imgs, k);
+    lemma_cat_len(imgs, k - 1);
+    lemma_cat_len_mono(imgs, i, i + 1);
+    lemma_cat_len_mono(imgs, i + 1, k);
+    let prev = concat_blocks(imgs, k - 1);
+    let cur = concat_blocks(imgs, k);
+    assert(cur == prev + imgs[k - 1]);
+    if i < k - 1 {
+        lemma_cat_at(imgs, k - 1, i);
+        assert(cur.subrange(cat_len(imgs, i), cat_len(imgs, i + 1)) =~= prev.subrange(cat_len(imgs, i), cat_len(imgs, i + 1)));
+    } else {
+        assert(cur.subrange(cat_len(imgs, k - 1), cat_len(imgs, k)) =~= imgs[k - 1]);
+    }
+}
+
+pub proof fn lemma_cat_len(imgs: Seq<Seq<u8>>, k: int)
+    requires
+        0 <= k <= imgs.len(),
+    ensures
+        concat_blocks(imgs, k).len() == cat_len(imgs, k),
+    decreases k,
+{
+    if k > 0 {
+        lemma_cat_len(imgs, k - 1);
+    }
+}
+
+/// every image is one exactly framed packet (its own length field covers it)
+pub open spec fn single_packets(imgs: Seq<Seq<u8>>) -> bool {
+    forall|i: int| 0 <= i < imgs.len() ==> (#[trigger] imgs[i]).len() >= 4 && tile_len(imgs[i], 0) == imgs[i].len()
+}
+
+/// the concatenation of single packets is tiled by exactly those packets (C14 parse-back; with the `next` contract of C11
+/// the i-th item is the generic parse of the i-th member image)
+// @LEMMA C14 C11
+pub proof fn lemma_concat_tiles(imgs: Seq<Seq<u8>>, i: int)
+    requires
+        0 <= i <= imgs.len(),
+        single_packets(imgs),
+    ensures
+        tiles_ok(concat_blocks(imgs, imgs.len() as int), cat_len(imgs, i)),
+        tiles_count(concat_blocks(imgs, imgs.len() as int), cat_len(imgs, i)) == imgs.len() - i,
+        i < imgs.len() ==> tile_len(concat_blocks(imgs, imgs.len() as int), cat_len(imgs, i)) == imgs[i].len()
+            && concat_blocks(imgs, imgs.len() as int).subrange(cat_len(imgs, i), cat_len(imgs, i) + imgs[i].len()) == imgs[i],
+    decreases imgs.len() - i,
+{
+    let k = imgs.len() as int;
+    let s = concat_blocks(imgs, k);
+    lemma_cat_len(imgs, k);
+    if i < k {
+        lemma_cat_at(imgs, k, i);
+        lemma_concat_tiles(imgs, i + 1);
+        let off = cat_len(imgs, i);
+        let t = s.subrange(off, cat_len(imgs, i + 1));
+        assert(t == imgs[i]);
+        assert(t[2] == s[off + 2] && t[3] == s[off + 3]);
+        assert(tile_len(s, off) == tile_len(imgs[i], 0));
+        assert(off + tile_len(s, off) == cat_len(imgs, i + 1));
+    } else {
+        assert(cat_len(imgs, k) == s.len());
+    }
+}
+
+pub open spec fn member_images(p: Seq<Box<dyn RtcpPacketWriter + '_>>) -> Seq<Seq<u8>> {
+    Seq::new(p.len(), |i: int| p[i].spec_bytes())
+}
+
+// @LEMMA C14
+pub proof fn lemma_cb_bytes_is_concat(p: Seq<Box<dyn RtcpPacketWriter + '_>>, k: int)
+    requires
+        0 <= k <= p.len(),
+    ensures
+        crate::compound::cb_bytes(p, k) == concat_blocks(member_images(p), k),
+    decreases k,
+{
+    if k > 0 {
+        lemma_cb_bytes_is_concat(p, k - 1);
+        assert(member_images(p)[k - 1] == p[k - 1].spec_bytes());
+    }
+}
+
+/// C11 as a verified program: draining an accepted compound terminates within the tile count, every item is the generic
+/// parse of its tile, iteration stops after the first failing tile and stays finished
+// @LEMMA C11 C01
+pub fn vp_compound_drain(data: &[u8]) -> (n: usize)
+    ensures
+        4 * n <= data@.len(),
+{
+    let parsed = crate::Compound::parse(data);
+    if parsed.is_err() {
+        return 0;
+    }
+    let mut c = parsed.unwrap();
+    let mut n: usize = 0;
+    let ghost total = tiles_count(data@, 0);
+    proof {
+        crate::compound::lemma_tiles_count_bound(data@, 0);
+    }
+    let mut failed = false;
+    loop
+        invariant
+            crate::compound::compound_wf(&c),
+            c.data@ == data@,
+            n + crate::compound::compound_measure(&c) <= total,
+            4 * total <= data@.len(),
+            failed ==> c.is_over,
+        ensures
+            c.is_over,
+        decreases crate::compound::compound_measure(&c),
+    {
+        let ghost before = c;
+        match c.next() {
+            None => {
+                assert(before.is_over);
+                break;
+            },
+            Some(item) => {
+                // the item is the generic parse of the tile at the old offset
+                assert(outcome_matches(item, crate::Packet::spec_parse(crate::compound::compound_tile(&before))));
+                if item.is_err() {
+                    failed = true;
+                    assert(c.is_over);
+                }
+                n += 1;
+            },
+        }
+    }
+    // fused: once finished it stays finished
+    let again = c.next();
+    assert(again is None);
+    let again2 = c.next();
+    assert(again2 is None);
+    n
 }
 
 } // verus!
